@@ -556,6 +556,63 @@ let run_crash16 (path : string) =
     end;
     print_string "E\n") (read_cases path)
 
+
+(* ---------- S3 storage strategies (C18) ---------- *)
+let stub_digest (s : stub) : string =
+  let all = List.sort compare (List.map (fun (n, d) -> (string_of_cl n, string_of_cl d)) s.st_objs) in
+  Printf.sprintf "objs=[%s]" (String.concat "," (List.map (fun (n, d) ->
+      Printf.sprintf "%s:%d:%s" (esc n) (String.length d) (fnv d)) all))
+
+let run_s3 (path : string) =
+  List.iter (fun c ->
+    Printf.printf "C %s\n" c.id;
+    let strat, retry = (match c.header with
+      | _ :: "s3" :: _ :: r :: _ -> (StS3, int_of_string r)
+      | _ :: _ :: _ :: r :: _ -> (StPart, int_of_string r)
+      | _ -> (StPart, 2)) in
+    let x = ref { sn_node = init_node (cl_of_string "nun") (cl_of_string "pwd") (cl_of_string "n0:3014") (n_of_int 1000) Primary clock0;
+                  sn_stub = stub0; sn_poisoned = false } in
+    let parts = ref [] in
+    let dead = ref false in
+    Hashtbl.reset closed_sessions;
+    List.iter (fun op ->
+      let n = ref !x.sn_node in
+      let setn () = x := { !x with sn_node = !n } in
+      let res =
+        if !dead then "DEAD" else
+        match op with
+        | ["conn"] -> let (n', id) = connect !n in n := n'; setn (); Printf.sprintf "Conn %d" (int_of_nat id)
+        | ["cmd"; sid; line] ->
+          let (n', r) = step !n (nat_of_int (int_of_string sid)) (cl_of_string (unhex line)) in
+          n := n'; setn (); resp_str r
+        | ["disc"; sid] -> n := disconnect !n (nat_of_int (int_of_string sid)); setn (); Hashtbl.replace closed_sessions (int_of_string sid) (); "Left"
+        | "parts" :: toks ->
+          List.iter (fun t -> match String.split_on_char '=' t with
+              | [h; p] -> parts := (cl_of_string (unhex h), n_of_dec p) :: !parts
+              | _ -> ()) toks; "Parts"
+        | ["fault"; "put"; k; mode] ->
+          let s = !x.sn_stub in
+          x := { !x with sn_stub = { s with st_putfail = Some (n_of_dec (dec_of_n s.st_puts |> fun a -> string_of_int (int_of_string a + int_of_string k)), mode = "always") } }; "Fault"
+        | ["fault"; "get"; k] ->
+          let s = !x.sn_stub in
+          x := { !x with sn_stub = { s with st_getfail = Some (n_of_dec (string_of_int (int_of_string (dec_of_n s.st_gets) + int_of_string k))) } }; "Fault"
+        | "fault" :: _ ->
+          let s = !x.sn_stub in
+          x := { !x with sn_stub = { s with st_putfail = None; st_getfail = None } }; "Fault"
+        | "flush" :: orders ->
+          let (x', ok) = s3_flush strat (nat_of_int retry) !parts !x (parse_orders orders) in
+          x := x'; n := x'.sn_node; if ok then "Flushed" else "PANIC"
+        | ["restart"] ->
+          let (x', ok) = s3_restart strat (nat_of_int retry) !x in
+          x := x'; n := x'.sn_node; Hashtbl.reset closed_sessions; if ok then "Restarted" else "PANIC"
+        | _ -> failwith "bad s3 op" in
+      let inb = node_inboxes n in
+      let q = node_queues n in
+      setn ();
+      Printf.printf "%s | %s | %s\n" res inb q;
+      Printf.printf "D %s %s\n" (node_dump false !x.sn_node) (stub_digest !x.sn_stub)) c.ops;
+    print_string "E\n") (read_cases path)
+
 (* ---------- cluster ---------- *)
 let cluster_dump (c : cluster) : string =
   let b = Buffer.create 512 in
@@ -722,6 +779,7 @@ let () =
   | [_; "disk"; path] -> run_disk path
   | [_; "crash11"; path] -> run_crash11 path
   | [_; "crash16"; path] -> run_crash16 path
+  | [_; "s3"; path] -> run_s3 path
   | [_; "node"; path] -> run_node path
   | [_; "oplog"; path] -> run_oplog path
   | [_; "pending"; path] -> run_pending path
